@@ -320,12 +320,12 @@ func Run(c *core.Ctx) {
 	if v := os.Getenv("VH_C15_PAR"); v != "" {
 		fmt.Sscanf(v, "%d", &par)
 	}
-	nprog := c.Pick(1800, 60000)
-	nsink := c.Pick(400, 8000)
+	nprog := c.Pick(6000, 60000)
+	nsink := c.Pick(1200, 8000)
 	if c.Race {
 		// the race build is an additional, slower scheduler; its reports about
 		// breakpoint changes racing with a running thread decide (race_rule)
-		nprog, nsink = c.Pick(200, 6000), c.Pick(40, 800)
+		nprog, nsink = c.Pick(600, 6000), c.Pick(120, 800)
 	}
 	c.Parallel(par, "prog", nprog, func(slot, idx int) {
 		p := genProgram(c.Rng("prog-src", idx/cfgsPerProgram))
